@@ -272,7 +272,7 @@ def main(argv):
             sessions.append(dict(rp["session"], forms=forms, i=len(sessions)))
         budget = checklib.Budget(420 if tier == "quick" else 2700)
         results = []
-        B = 32
+        B = 128
         for b0 in range(0, len(sessions), B):
             if budget.over():
                 break
